@@ -137,6 +137,7 @@ def configure_from(cfg: dict) -> Callable[[Any], None]:
         settings.queueing.idle_timeout = cfg.get('idle_timeout', 5)
         settings.queueing.exit_timeout = 2
         settings.background.cancellation_polling = 2
+        settings.watching.reconnect_backoff = 0.125      # dyadic, so that virtual instants are exact in ticks
     return configure
 
 
